@@ -104,10 +104,13 @@ fn add_points(db: &mut Database) {
 }
 
 fn update(db: &mut Database, pt: Pt, k: u64) -> UpdateInfo {
+    update_with(db, pt, k, UpdateOptions::detect_event())
+}
+
+fn update_with(db: &mut Database, pt: Pt, k: u64, opt: UpdateOptions) -> UpdateInfo {
     let (v, bytes, flags, time) = pt.script(k);
     let fl = Flags::new(flags);
     let t = super::common::ts(time);
-    let opt = UpdateOptions::detect_event();
     match pt {
         Pt::Binary0 | Pt::Binary1 => db.update2(pt.index(), &BinaryInput::new(v != 0.0, fl, t), opt),
         Pt::Double0 => db.update2(0, &DoubleBitBinaryInput::new(if v == 1.0 { DoubleBit::DeterminedOff } else { DoubleBit::DeterminedOn }, fl, t), opt),
@@ -125,6 +128,8 @@ enum Dev {
     /// the default schedule: forward everything held, else advance to the next timer
     Default,
     Upd(Pt),
+    /// the next script entry applied with `EventMode::Force` (an event whatever the value)
+    Force(Pt),
     Cut,
     M2oFirstByte,
     O2mFirstByte,
@@ -150,6 +155,9 @@ struct Corner {
     /// a periodic class 1/2/3 poll every 5 s; without it the mirror depends on unsolicited
     /// reporting (and on the integrity polls the master schedules itself)
     poll: bool,
+    /// additional analog inputs 1..=extra (g30v1, no event class, never updated): the integrity
+    /// response needs several fragments and a fragment runs full in the middle of a run of points
+    extra: u16,
 }
 
 pub struct C02 {
@@ -179,9 +187,10 @@ impl C02 {
 impl Scenario for C02 {
     fn name(&self) -> String {
         format!(
-            "unsol{}{}-{}-events{}-{}-slots{}-dev{}",
+            "unsol{}{}{}-{}-events{}-{}-slots{}-dev{}",
             self.corner.unsol as u8,
             if self.corner.poll { "" } else { "-nopoll" },
+            if self.corner.extra > 0 { format!("-extra{}", self.corner.extra) } else { String::new() },
             if self.corner.small { "249" } else { "2048" },
             self.corner.events,
             if self.corner.close { "close" } else { "discard" },
@@ -224,6 +233,13 @@ impl Scenario for C02 {
         let mut pair = Pair::new(&ocfg, size, c.close, 1000, 1);
         pair.manual = true;
         pair.ohandle.transaction(add_points);
+        if c.extra > 0 {
+            pair.ohandle.transaction(|db| {
+                for i in 1..=c.extra {
+                    db.add(i, None, AnalogInputConfig::new(StaticAnalogInputVariation::Group30Var1, EventAnalogInputVariation::Group32Var3, 0.0));
+                }
+            });
+        }
         let mut cfg = AssociationConfig::default();
         cfg.response_timeout = Timeout::from_duration(Duration::from_millis(2000)).unwrap();
         cfg.auto_tasks_retry_strategy = RetryStrategy::new(Duration::from_secs(1), Duration::from_secs(4));
@@ -250,11 +266,12 @@ impl Scenario for C02 {
             obs.add_str(&format!("{d:?}"));
             match d {
                 Dev::Default => Self::default_slot(&mut pair),
-                Dev::Upd(pt) => {
+                Dev::Upd(pt) | Dev::Force(pt) => {
                     deviations += 1;
                     let k = applied.get(&pt).copied().unwrap_or(0) + 1;
                     applied.insert(pt, k);
-                    let info = pair.ohandle.transaction(|db| update(db, pt, k));
+                    let opt = if matches!(d, Dev::Force(_)) { UpdateOptions::new(true, EventMode::Force) } else { UpdateOptions::detect_event() };
+                    let info = pair.ohandle.transaction(|db| update_with(db, pt, k, opt));
                     match info {
                         UpdateInfo::Created(id) => created.push((pt, k, id)),
                         UpdateInfo::Overflow { created: id, discarded: dd } => {
@@ -372,7 +389,19 @@ impl Scenario for C02 {
         let mut mirror: BTreeMap<Pt, &Val> = BTreeMap::new();
         let mut seen: Vec<(Pt, u64)> = Vec::new();
         let mut n_received = 0usize;
+        let mut extras_seen: std::collections::BTreeSet<u16> = Default::default();
         for v in &received {
+            if v.kind == "analog" && v.index >= 1 && v.index <= c.extra {
+                // never updated: only the initial value may ever be reported
+                if v.value != 0.0 || v.flags != 0x02 {
+                    res.violation = Some(Violation::new("C02.F2", "value-that-the-point-never-had:analog-extra", format!("{v:?}")));
+                    res.obs = obs.0;
+                    return res;
+                }
+                extras_seen.insert(v.index);
+                n_received += 1;
+                continue;
+            }
             let Some(pt) = ALL_POINTS.iter().copied().find(|p| p.kind() == v.kind && p.index() == v.index) else {
                 res.violation = Some(Violation::new("C02.F1", "value-for-point-that-does-not-exist", format!("{v:?}")));
                 res.obs = obs.0;
@@ -442,6 +471,17 @@ impl Scenario for C02 {
                 return res;
             }
         }
+        for i in 1..=c.extra {
+            if !extras_seen.contains(&i) {
+                res.violation = Some(Violation::new(
+                    "C02.C1",
+                    "mirror-did-not-converge:analog-extra",
+                    format!("analog input {i} of the large database was never delivered to the handler ({} values received)", received.len()),
+                ));
+                res.obs = obs.0;
+                return res;
+            }
+        }
         // (3) every event not reported discarded reached the handler
         for (pt, k, id) in &created {
             if discarded.contains(id) {
@@ -479,14 +519,19 @@ fn alphabet(tier: &str) -> Vec<Dev> {
 fn scenarios(tier: &str) -> Vec<C02> {
     let corners_quick = [
         // unsolicited reporting only (no periodic poll)
-        Corner { unsol: true, small: true, events: 2, close: true, poll: false },
-        Corner { unsol: false, small: false, events: 10, close: true, poll: true },
-        Corner { unsol: true, small: false, events: 10, close: false, poll: true },
-        Corner { unsol: false, small: true, events: 2, close: false, poll: true },
+        Corner { unsol: true, small: true, events: 2, close: true, poll: false, extra: 0 },
+        Corner { unsol: false, small: false, events: 10, close: true, poll: true, extra: 0 },
+        Corner { unsol: true, small: false, events: 10, close: false, poll: true, extra: 0 },
+        Corner { unsol: false, small: true, events: 2, close: false, poll: true, extra: 0 },
     ];
     // bursts that overflow a type and need several fragments to report
-    let burst_corner = Corner { unsol: false, small: true, events: 10, close: true, poll: true };
+    let burst_corner = Corner { unsol: false, small: true, events: 10, close: true, poll: true, extra: 0 };
     let burst_alphabet = vec![Dev::Default, Dev::Burst, Dev::Stall, Dev::Cut, Dev::Upd(Pt::Binary0), Dev::O2mFirstByte];
+    // a database whose integrity response needs several fragments
+    let big_corner = Corner { unsol: false, small: true, events: 10, close: true, poll: true, extra: 120 };
+    let big_alphabet = vec![Dev::Default, Dev::Upd(Pt::Analog0), Dev::Cut, Dev::Stall, Dev::O2mFirstByte, Dev::Upd(Pt::Binary0)];
+    // forced events between detected ones, reported by unsolicited responses only
+    let force_alphabet = vec![Dev::Default, Dev::Upd(Pt::Binary0), Dev::Force(Pt::Binary0), Dev::Stall];
     let mut v = Vec::new();
     if tier == "quick" {
         for c in corners_quick {
@@ -494,12 +539,14 @@ fn scenarios(tier: &str) -> Vec<C02> {
         }
         v.push(C02 { corner: corners_quick[0], slots: 8, max_dev: 3, alphabet: alphabet(tier) });
         v.push(C02 { corner: burst_corner, slots: 10, max_dev: 2, alphabet: burst_alphabet });
+        v.push(C02 { corner: big_corner, slots: 8, max_dev: 2, alphabet: big_alphabet });
+        v.push(C02 { corner: corners_quick[0], slots: 8, max_dev: 4, alphabet: force_alphabet });
     } else {
         for unsol in [false, true] {
             for small in [false, true] {
                 for events in [2u16, 10] {
                     for close in [false, true] {
-                        let c = Corner { unsol, small, events, close, poll: !unsol || close };
+                        let c = Corner { unsol, small, events, close, poll: !unsol || close, extra: 0 };
                         v.push(C02 { corner: c, slots: 12, max_dev: 2, alphabet: alphabet(tier) });
                     }
                 }
@@ -511,6 +558,12 @@ fn scenarios(tier: &str) -> Vec<C02> {
         v.push(C02 { corner: corners_quick[0], slots: 8, max_dev: 4, alphabet: alphabet("quick") });
         v.push(C02 { corner: burst_corner, slots: 12, max_dev: 3, alphabet: burst_alphabet.clone() });
         v.push(C02 { corner: Corner { unsol: true, ..burst_corner }, slots: 12, max_dev: 3, alphabet: burst_alphabet });
+        v.push(C02 { corner: big_corner, slots: 12, max_dev: 3, alphabet: big_alphabet.clone() });
+        v.push(C02 { corner: Corner { unsol: true, ..big_corner }, slots: 10, max_dev: 3, alphabet: big_alphabet });
+        let mut fa = force_alphabet.clone();
+        fa.extend([Dev::Force(Pt::Analog0), Dev::Upd(Pt::Analog0), Dev::Cut]);
+        v.push(C02 { corner: corners_quick[0], slots: 10, max_dev: 5, alphabet: fa.clone() });
+        v.push(C02 { corner: corners_quick[2], slots: 10, max_dev: 4, alphabet: fa });
     }
     v
 }
